@@ -16,7 +16,7 @@ def run(ctx):
     ctx.decided = ["a: groups are keyed by the loop_id of the head's own flow and resolution iterates over the groups",
                    "b: one emission per group on every path, none for co-winners, one in the single-head shortcut",
                    "c: every other head gets exactly one of co-win / caught / abort on every path",
-                   "d: descending sort by score list and winner from the tie prefix", "e: only heads of active flows with ACTIVE status enter resolution"]
+                   "d: descending sort by score list and winner from the tie prefix; the score chain travels with control (fork, merge, match)", "e: only heads of active flows with ACTIVE status enter resolution"]
     ctx.not_decided = ["the ordering over score vectors for all values", "fairness of the tie-break"]
     identity_predicate(ctx)
     loop_sources(ctx)
@@ -24,6 +24,7 @@ def run(ctx):
     d_priority_zero(ctx)
     c_identity_by_instance(ctx)
     c_abort_spares_winner(ctx)
+    d_score_chain(ctx)
     t = ctx.tree.ast(SM)
     fn = find_function(t, "_resolve_action_conflicts")
     if fn is None:
@@ -323,6 +324,57 @@ def run(ctx):
 
 FLOWS = "nemoguardrails/colang/v2_x/runtime/flows.py"
 FRESH = {"new_uuid", "new_readable_uuid"}
+
+
+def d_score_chain(ctx):
+    """`most specific wins` is decided on head.matching_scores, the chain of match scores since the external event.  The chain has to travel with control: a head
+    created by a fork starts with a copy of the forking head's chain, the head that continues after a merge takes over the chain of the head that arrived, and a head
+    that matches an event extends the event's chain by its own score.  Drop one of the three and a flow that reaches its action through an or-group / `when` competes
+    with an empty chain (= padded with 1.0, an exact match) and beats more specific flows."""
+    t = ctx.tree.ast(SM)
+    sl = find_function(t, "slide")
+    rtc = find_function(t, "run_to_completion")
+    if sl is None or rtc is None:
+        raise AnalysisError("slide / run_to_completion not found", anchor=SM + "::slide")
+    hv = sl.args.args[2].arg if len(sl.args.args) > 2 else "head"
+    cons = [c for c in walk_no_nested(sl) if isinstance(c, ast.Call) and src(c.func) == "FlowHead"]
+    ctx.floor("C05.d.score-chain", SM, "heads created by a fork in slide()", len(cons), 1)
+    for c in cons:
+        kw = {k.arg: k.value for k in c.keywords}
+        v = kw.get("matching_scores")
+        ok = v is not None and any(isinstance(x, ast.Attribute) and x.attr == "matching_scores" for x in ast.walk(v))
+        ctx.check("C05.d.score-chain", SM, "slide", "forked head starts with the forking head's score chain", ok,
+                  "a head created by ForkHead is given (a copy of) the forking head's matching_scores" if ok else
+                  "a head created by ForkHead does not inherit the score chain: every branch of an or-group / `when` competes as an exact match", line=c.lineno)
+    # take-over: another head receives this head's position
+    takes = [a for a in walk_no_nested(sl) if isinstance(a, ast.Assign) and isinstance(a.targets[0], ast.Attribute) and a.targets[0].attr == "position"
+             and isinstance(a.targets[0].value, ast.Name) and a.targets[0].value.id != hv
+             and any(isinstance(x, ast.Attribute) and x.attr == "position" for x in ast.walk(a.value))]
+    ctx.floor("C05.d.score-chain", SM, "hand-over of control to another head (merge)", len(takes), 1)
+    for a in takes:
+        recv = a.targets[0].value.id
+        blk = _block_of(a) or []
+        ok = any(isinstance(s_, ast.Assign) and src(s_.targets[0]) == "%s.matching_scores" % recv
+                 and any(isinstance(x, ast.Attribute) and x.attr == "matching_scores" for x in ast.walk(s_.value)) for s_ in blk)
+        ctx.check("C05.d.score-chain", SM, "slide", "head continuing after a merge takes over the score chain", ok,
+                  "`%s` continues with the matching_scores of the head that arrived at the merge" % recv if ok else
+                  "`%s` continues after the merge with its own, stale score chain (empty after the per-event clean-up, i.e. padded to an exact match): the fuzzy score and the flow "
+                  "priority of the match that led here are lost, and the flow wins against more specific competitors" % recv, line=a.lineno)
+    ext = [a for a in walk_no_nested(rtc) if isinstance(a, ast.Assign) and isinstance(a.targets[0], ast.Attribute) and a.targets[0].attr == "matching_scores"
+           and any(isinstance(x, ast.Attribute) and x.attr == "matching_scores" for x in ast.walk(a.value))]
+    ok = bool(ext) and all(any(isinstance(c, ast.Call) and isinstance(c.func, ast.Attribute) and c.func.attr == "append" and src(c.func.value) == src(a.targets[0])
+                               for s_ in (_block_of(a) or []) for c in ast.walk(s_)) for a in ext)
+    ctx.check("C05.d.score-chain", SM, "run_to_completion", "matching head extends the event's score chain", ok,
+              "a head that matches takes the event's chain and appends its own score", line=(ext[0].lineno if ext else rtc.lineno))
+
+
+def _block_of(stmt):
+    p = getattr(stmt, "_parent", None)
+    for f in ("body", "orelse", "finalbody"):
+        b = getattr(p, f, None)
+        if isinstance(b, list) and stmt in b:
+            return b
+    return None
 
 
 def identity_predicate(ctx):
